@@ -73,7 +73,7 @@ def const_value_ok(t: list, v) -> bool:
         return False
     if isinstance(v, str):
         # a string literal: exactly one ASCII character, only for uint8
-        return t[0] == "u" and t[1] == 8 and len(v.encode("utf-8")) == 1
+        return t[0] == "u" and t[1] == 8 and len(v) == 1 and ord(v) < 128  # exactly one ASCII character
     f = Fraction(v[0], v[1])
     if t[0] in ("u", "i"):
         if f.denominator != 1:
